@@ -175,4 +175,4 @@ log(T.cat("<" + TID + ">"), T.cat4(TID, "!"), T.cat1(TID), T.pushb(TID), T.bobj(
 `
 
 // ProbeMini is the short probe of the copy-only scenario.
-const ProbeMini = `T.arr.push(T.next()); log(T.arr.join(), T.counter++, T.re.lastIndex++, T.cat(TID), T.pushb(TID));`
+const ProbeMini = `T.arr.push(T.next()); log(T.arr.join(), T.re.lastIndex++, T.cat(TID), T.pushb(TID));`
